@@ -19,7 +19,7 @@ Src(m, withSec, withCont, bare) ==
   [title |-> << Plain("Src"), Tag("projects", "tp"), Prop("tk", "tv"), IProp("tm", "two words") >>, head |-> << >>,
    body |-> << N1(m) >> \o (IF withSec THEN << [k |-> "blank"], Sec, [k |-> "blank"] >> ELSE << >>) \o << N2(m, withCont), N3(m, bare) >>]
 DestForms == { "missing-tmpl", "missing-notmpl", "header-only", "header-blank", "items", "items-blank-end", "two-blocks",
-               "sec-last-nl", "sec-last-nonl", "sec-with-items" }
+               "sec-last-nl", "sec-last-nonl", "sec-with-items", "same-page" }
 ItemIdx(p, which) == CHOOSE i \in DOMAIN p.body : IsItem(p.body[i])
                         /\ Cardinality({ j \in 1..i : IsItem(p.body[j]) }) = which
 Cases == { LET p == Src(m, ws, wc, bare)  i == ItemIdx(p, which) IN
